@@ -159,6 +159,8 @@ impl<Key, Value> CommandExecutor<Key, Value>
                         for command_acknowledgement_pair in receiver.iter() {
                             command_acknowledgement_pair.acknowledgement.done(CommandStatus::ShuttingDown);
                         }
+                        #[cfg(cached_verif)]
+                        crate::cache::verif::point("worker.drain.end");
                         drop(receiver);
                         break;
                     }
